@@ -238,3 +238,52 @@ func BadWeightedTotal(ws, vs []float64) float64 {
 	}
 	return total
 }
+
+// seeded: both branches are computed up front from the same base (C11-25's shape)
+func pushOne(xs [][]string, g []string) [][]string { return append(xs, g) }
+
+func BadTwoAppends(xs [][]string, a, b []string, first bool) [][]string {
+	l := pushOne(xs, a)
+	r := pushOne(xs, b)
+	if first {
+		return l
+	}
+	return r
+}
+
+func OkOneAppendPerPath(xs [][]string, a, b []string, first bool) [][]string {
+	if first {
+		return pushOne(xs, a)
+	}
+	return pushOne(xs, b)
+}
+
+type span struct{ lo, hi float64 }
+
+func keep(s *span, unit bool) *span {
+	if unit {
+		return s
+	}
+	return &span{s.lo * 2, s.hi * 2}
+}
+
+// seeded: one variable outside the loop, its address retained per element (C17-25's shape)
+func BadSharedRange(in []span, unit bool) []*span {
+	out := make([]*span, len(in))
+	var cur span
+	for i, s := range in {
+		cur = s
+		out[i] = keep(&cur, unit)
+	}
+	return out
+}
+
+func OkOwnRange(in []span, unit bool) []*span {
+	out := make([]*span, len(in))
+	for i := range in {
+		cur := new(span)
+		*cur = in[i]
+		out[i] = keep(cur, unit)
+	}
+	return out
+}
